@@ -24,8 +24,8 @@ def area_list(tier):
     return full, occl, stoch
 
 
-def judge(s, area, name, seeds):
-    st = mkstate(s)
+def judge(s, area, name, seeds, st=None):
+    st = st if st is not None else mkstate(s)
     n = 0
     if name == 'stochastic_raytracing':
         variants = [('fill', 1e-9), ('fill', 1 - 1e-9)] + [('seed', sd) for sd in seeds]
@@ -43,6 +43,22 @@ def judge(s, area, name, seeds):
     return n, None
 
 
+def judge_all(s, area, names, seeds):
+    """all functions in `names` order on ONE state object (an observation must not depend on, nor disturb, the others)"""
+    from ..desc import sdesc
+
+    st = mkstate(s)
+    n = 0
+    for name in names:
+        k, m = judge(s, area, name, seeds, st=st)
+        n += k
+        if m:
+            return n, m, name
+        if sdesc(st) != s:
+            return n, f'{name} area {area}: computing the observation modified the state (so later observations of it are unsound)', name
+    return n, None, None
+
+
 def _work(job):
     shape, kmax, i, parts, areas, seeds, helds = job
     n = nontrivial = 0
@@ -53,22 +69,17 @@ def _work(job):
     # inside areas keeps the harness from thrashing it
     # the transparent function is evaluated first AND again after the occluding ones (an observation must not depend
     # on which observations were computed before it)
-    order = O.ALL_FUNCS + ['fully_transparent']
     for area in full:
-        for name in order:
-            if not O.applicable(name, area):
-                continue
-            if name in ('partially_occluded', 'raytracing') and area not in occl:
-                continue
-            if name == 'stochastic_raytracing' and area not in stoch:
-                continue
-            for sub, s in mine:
-                k, m = judge(s, area, name, seeds)
-                n += k
-                nontrivial += 1
-                if m and len(fails) < 3:
-                    fails.append({'kind': 'obs', 's': s, 'area': area, 'name': name, 'seeds': list(seeds), 'message': m,
-                                  'sig': {'fn': name}})
+        order = [nm for nm in O.ALL_FUNCS + ['fully_transparent'] if O.applicable(nm, area)
+                 and not (nm in ('partially_occluded', 'raytracing') and area not in occl)
+                 and not (nm == 'stochastic_raytracing' and area not in stoch)]
+        for sub, s in mine:
+            k, m, name = judge_all(s, area, order, seeds)
+            n += k
+            nontrivial += len(order)
+            if m and len(fails) < 3:
+                fails.append({'kind': 'obs_all', 's': s, 'area': area, 'names': order, 'seeds': list(seeds), 'message': m,
+                              'sig': {'fn': name}})
     sample = None
     for sub, s in mine:
         if sub:
@@ -78,6 +89,8 @@ def _work(job):
 
 
 def replay(case):
+    if case['kind'] == 'obs_all':
+        return judge_all(tup(case['s']), tup(case['area']), case['names'], case.get('seeds', []))[1]
     return judge(tup(case['s']), tup(case['area']), case['name'], case.get('seeds', []))[1]
 
 
@@ -96,7 +109,7 @@ def run(rep, tier, seed):
             kmax = 1 if n > 6 else 2
         else:
             kmax = 3 if n <= 9 else 2 if n <= 16 else 1
-        helds = (NONE, U.key(2)) if n <= 2 else (NONE,)
+        helds = (NONE, U.key(2), U.WALL, U.box(U.key(1)), U.beacon(3)) if n <= 2 else (NONE,)
         plan.append({'shape': list(sh), 'max_opaque_cells': kmax})
         cnt = sum(1 for _ in O.opaque_subsets(sh, kmax)) * n * 4
         parts = max(1, min(64, cnt // 40))
